@@ -180,6 +180,9 @@ def gen(work):
     o.append("(* event declarations: (model id, signature) *)")
     o.append("Definition evdecls : list (Z * list Z) :=\n  [" + ";\n   ".join(
         "(%d, %s)" % (mid[e["model"]], zl(e["sig"])) for e in data["evdecl"]) + "].\n")
+    o.append("(* (model id, signature, description) of every declared event *)")
+    o.append("Definition evdescs : list (Z * list Z * list Z) :=\n  [" + ";\n   ".join(
+        "(%d, %s, %s)" % (mid[e["model"]], zl(e["sig"]), zl(e["desc"])) for e in data["evdecl"]) + "].\n")
     o.append("(* events paired by PAIR_E/PAIR_B/PAIR_S in the evlist: (model id, (c,v) of the first, (c,v) of the second) *)")
     o.append("Definition evpairs : list (Z * (Z * Z) * (Z * Z)) :=\n  [" + ";\n   ".join(
         "(%d, (%d, %d), (%d, %d))" % (mid[p_["model"]], ord(p_["first"][1]), ord(p_["first"][2]), ord(p_["second"][1]), ord(p_["second"][2]))
